@@ -90,14 +90,14 @@ def run(tier, seed):
     rnd = random.Random(seed)
     m = menu()
     if tier == "quick":
-        chk.machine_family("histories-d2", [history_scenario([m, m])], features=features)
+        chk.machine_family("histories-d2", [history_scenario([m, m])], features=features, opts_list=[{}, {"via_file": True}])
         sub = rnd.sample(m, 7)
         chk.machine_family("histories-d3-shard", [history_scenario([sub, sub, sub])], features=features)
     else:
         chk.machine_family("histories-d3", [history_scenario([m, m, m])], features=features)
         sub = rnd.sample(m, 7)
         chk.machine_family("histories-d4-shard", [history_scenario([sub, sub, sub, sub])], features=features)
-    chk.machine_family("suspended-late-binding", suspended_scenarios(), features=features)
+    chk.machine_family("suspended-late-binding", suspended_scenarios(), features=features, opts_list=[{}, {"via_file": True}])
     chk.exhaustive = True
     need = ["DoCallReserved", "DoCallUnknown", "DoCallNative", "DoCallFacts", "DoCallClause", "DoCut"]
     missing = [e for e in need if not chk.events.get(e)]
